@@ -97,6 +97,13 @@ def v1(rep, F):
                             "%s wires %d rule functions; %d were confirmed on the pinned tree: a documented "
                             "rule has disappeared" % (name, wired, want), main["file"], main["line"]))
         r2.setdefault("counts", {})[name] = wired
+        # the generic entry points (SwiftMessage::validate, the wrapper enum) call the trait method: without an
+        # override they get the trait default, an empty list
+        if tr is None:
+            rep.add(Finding("V1", main["path"], "no-trait-method",
+                            "%s has rule functions but its impl SwiftMessageBody does not override "
+                            "validate_network_rules: SwiftMessage::validate and the auto-detected wrapper report "
+                            "every %s as valid" % (name, name), main["file"], main["line"]))
         # trait fn must delegate to the same logic with the flag passed through
         if tr is not None and tr is not main:
             ok = any(callee(n) == main["path"] for n in walk(tr["body"]) if n.get("k") in ("call", "mcall"))
@@ -193,9 +200,20 @@ def _is_ret_of(n, acc):
     return False
 
 
-def _pushes(n, acc):
+def _push_stmt(n, acc):
+    """statement n itself is `acc.push(..)` (not merely contains one somewhere inside a condition)"""
+    x = n
+    while isinstance(x, dict) and x.get("k") in ("semi", "stmt"):
+        x = x.get("e") or x.get("expr")
+    if isinstance(x, dict) and x.get("k") == "mcall" and x.get("m") == "push":
+        rv = peel(x.get("recv"))
+        return isinstance(rv, dict) and rv.get("k") == "local" and rv.get("id") == acc
+    return False
+
+
+def _pushes(n, acc, only_push=False):
     for x in walk(n):
-        if x.get("k") == "mcall" and x.get("m") in ("push", "extend", "append", "extend_from_slice"):
+        if x.get("k") == "mcall" and x.get("m") in (("push",) if only_push else ("push", "extend", "append", "extend_from_slice")):
             rv = peel(x.get("recv"))
             if isinstance(rv, dict) and rv.get("k") == "local" and rv.get("id") == acc:
                 return True
@@ -339,11 +357,11 @@ def s1_fn(rep, F, b, r, depth=0, seen=None):
             for key, node, idx in reversed(parents):
                 if key == "list":
                     prior = node[:idx]
-                    if any(_pushes(p, acc) for p in prior):
+                    if any(_push_stmt(p, acc) for p in prior):
                         return
                     break
                 if key == "expr" and node.get("k") == "block":
-                    if any(_pushes(p, acc) for p in node.get("stmts") or []):
+                    if any(_push_stmt(p, acc) for p in node.get("stmts") or []):
                         return
                     break
             rep.add(Finding("S1", b["path"], "stop-without-error",
@@ -733,6 +751,18 @@ def s3(rep, F):
                                     % b["path"], b["file"], c.get("ln")))
     if n < 31:
         rep.fail_closed("S3: only %d adapter calls of validate_network_rules found (expected >= 31)" % n)
+    # the adapters are generic over SwiftMessageBody: a type whose rules live in an inherent method only is
+    # validated by the trait default (no rules) there, and by its rules in the plugin
+    for T in G.message_types(F):
+        ih = F.fn(T, "validate_network_rules", None)
+        tr = F.fn(T, "validate_network_rules", "SwiftMessageBody")
+        r["instances"] += 1
+        if ih is not None and tr is None:
+            rep.add(Finding("S3", ih["path"], "no-trait-method",
+                            "%s implements validate_network_rules as an inherent method only: "
+                            "SwiftMessage::validate and ParsedSwiftMessage::validate reach the trait default and "
+                            "report every message of this type as valid, the plugin does not" % G.short(T),
+                            ih["file"], ih["line"]))
     # validity = errors.is_empty(), on every exit
     sm = F.body_by_path.get("swift_message::SwiftMessage::<T>::validate")
     if sm is None:
